@@ -89,7 +89,7 @@ def _(c):
     c.ensures("len(result) == serial_count(self.specifiers, len(self.specifiers))", name="one_argument_per_star_and_conversion")
 
 
-@contract("pyanalyze.value.SequenceValue.get_member_sequence", props=P + ["C01"])
+@contract("pyanalyze.value.SequenceValue.get_member_sequence", props=P + ["C01", "C02"])
 def _(c):
     c.returns("opt[seq]")
     c.functional = True
